@@ -629,11 +629,23 @@ func firstLines(s string, n int) string {
 }
 
 type replay struct {
-	Scenario string `json:"scenario"`
-	Schedule []int  `json:"schedule"`
+	Scenario string   `json:"scenario"`
+	Schedule []int    `json:"schedule"`
+	Api      *apiCase `json:"api,omitempty"`
 }
 
 func main() {
+	if len(os.Args) > 1 && os.Args[1] == "apiseq" {
+		lalenv.Quiet()
+		world.SyncQueues()
+		var only *apiCase
+		if len(os.Args) > 2 {
+			only = &apiCase{}
+			json.Unmarshal([]byte(os.Args[2]), only)
+		}
+		apiSeqChild(only)
+		os.Exit(0)
+	}
 	if os.Getenv("C20_CHILD") == "" && len(os.Args) > 1 && os.Args[1] == "child" {
 		// re-exec with the race detector writing to a file of ours (GORACE is read at start-up)
 		dir := os.Getenv("VERIF_SCRATCH")
@@ -726,6 +738,10 @@ func main() {
 	if r.ReplayIn != "" {
 		var rp replay
 		r.LoadReplay(&rp)
+		if rp.Api != nil {
+			apiSeqPhase(r, rp.Api)
+			r.Finish()
+		}
 		sb, _ := json.Marshal(rp.Schedule)
 		cr, out, err := runChild(rp.Scenario, "0", "60", string(sb))
 		if os.Getenv("C20_DEBUG") != "" {
@@ -757,11 +773,11 @@ func main() {
 			mu.Lock()
 			defer mu.Unlock()
 			if err != nil {
-				r.Violation("process-crash/"+sc.Name, fmt.Sprintf("[%s] the process died while exploring: %s", sc.Name, tail(out, 2500)), replay{sc.Name, nil})
+				r.Violation("process-crash/"+sc.Name, fmt.Sprintf("[%s] the process died while exploring: %s", sc.Name, tail(out, 2500)), replay{Scenario: sc.Name})
 				return
 			}
 			for _, v := range cr.Violations {
-				r.Violation(v.Key, fmt.Sprintf("[%s] schedule %v: %s", sc.Name, v.Schedule, v.What), replay{sc.Name, v.Schedule})
+				r.Violation(v.Key, fmt.Sprintf("[%s] schedule %v: %s", sc.Name, v.Schedule, v.What), replay{Scenario: sc.Name, Schedule: v.Schedule})
 			}
 			per[sc.Name] = map[string]interface{}{"executions": cr.Executions, "scheduling_points": cr.Points, "longest_schedule": cr.MaxPoints, "distinct_thread_orders": cr.Shapes, "capped": cr.Capped, "prefixes_not_replayed_exactly": cr.Diverged}
 			execs += int64(cr.Executions)
@@ -785,6 +801,7 @@ func main() {
 	r.AddTraces(execs)
 	r.Cov("per_scenario", per)
 	r.Cov("preemption_bound", bound)
+	apiSeqPhase(r, nil)
 	r.Finish()
 }
 
